@@ -76,6 +76,10 @@ def P(name, row, T, ctype, attrs="", dir="in", **kw):
     return d
 
 
+ENUM_NAME = "XColor"
+ENUM_MEMBERS = [("XC_RED", 2), ("XC_GREEN", 5), ("XC_BLUE", 9)]
+ENUM_DECL = "enum %s { %s }" % (ENUM_NAME, ", ".join("%s = %d" % m for m in ENUM_MEMBERS))
+
 DIM_FORMS = ["{m}", "{m}", "{m}+1", "{m},{k}", "{m},{k}-1", "{m}+1,{k}"]
 
 
@@ -134,7 +138,7 @@ def param(draw, i, lang, for_fortran=True, allowed=None, types=None):
     rows = ["N1", "N1", "N2in", "N2out", "N2inout", "B1", "B1out", "B1inout", "S1in", "S1out", "N3in", "N3inout", "N3out", "S1c"]
     rows.append("S1inout")
     if lang == "c++":
-        rows += ["N2ref", "N2refout", "S3in", "S3out", "S3inout", "S3val"]
+        rows += ["N2ref", "N2refout", "S3in", "S3out", "S3inout", "S3val", "E1"]
         if for_fortran:
             # declarations.rst "std::vector" (Fortran API: assumed-shape arrays; the C API of a vector
             # argument is not documented, so the C front end does not use these rows)
@@ -145,6 +149,10 @@ def param(draw, i, lang, for_fortran=True, allowed=None, types=None):
     if row == "N1":
         T = draw(st.sampled_from(NUM_T))
         return [P(n, row, T, "%s %s" % (T, n))]
+    if row == "E1":
+        # reference.rst "Enumeration": an enum argument is an int in the C API, integer(C_INT) in Fortran, an
+        # integer in Python and Lua; the wrappers cast it back to the C++ enumeration
+        return [P(n, "N1", "int", "%s %s" % (ENUM_NAME, n), enum=True)]
     if row == "N2in":
         T = draw(st.sampled_from(NUM_T))
         return [P(n, row, T, "const %s *%s" % (T, n))]
@@ -210,7 +218,7 @@ def result(draw, lang, for_fortran=True, allowed=None, types=None):
     NUM_T = [t for t in NUM_T_ALL if types is None or t in types]
     rows = ["void", "void", "N", "N", "B", "C", "S1", "S1len"]
     if lang == "c++":
-        rows += ["S3ref", "S3len"]
+        rows += ["S3ref", "S3len", "E"]
         if for_fortran:
             # a std::string returned by value has no plain C wrapper (documented: only the
             # buffer variant for Fortran is created), so the C front end does not use it
@@ -224,6 +232,8 @@ def result(draw, lang, for_fortran=True, allowed=None, types=None):
     if r == "N":
         T = draw(st.sampled_from(NUM_T))
         return dict(row="N", T=T, ctype=T, attrs="")
+    if r == "E":
+        return dict(row="N", T="int", ctype=ENUM_NAME, attrs="", enum=True)
     if r == "B":
         return dict(row="B", T="bool", ctype="bool", attrs="")
     if r == "C":
@@ -257,7 +267,9 @@ def call_vector(draw, f, for_fortran=True):
             n = draw(st.sampled_from([0, 1, 2, 4])) if p.get("size_role", "m") == "m" else draw(st.sampled_from([1, 2, 3]))
             ins[p["name"]] = n
             continue
-        if row in ("N1", "N2in"):
+        if p.get("enum"):
+            ins[p["name"]] = draw(st.sampled_from([v for _n, v in ENUM_MEMBERS]))
+        elif row in ("N1", "N2in"):
             ins[p["name"]] = draw(value_of(T, for_fortran))
         elif row in ("N2out", "N2refout"):
             outs[p["name"]] = draw(value_of(T, for_fortran))
@@ -315,7 +327,9 @@ def call_vector(draw, f, for_fortran=True):
             outs[p["name"]] = [draw(value_of(T, for_fortran)) for _ in range(total)]
     r = f["ret"]
     if r:
-        if r["row"] in ("N", "B", "C"):
+        if r.get("enum"):
+            outs["rv"] = draw(st.sampled_from([v for _n, v in ENUM_MEMBERS]))
+        elif r["row"] in ("N", "B", "C"):
             outs["rv"] = draw(value_of(r["T"], for_fortran))
         elif r["row"] == "V":
             outs["rv"] = [draw(value_of(r["T"], for_fortran)) for _ in range(draw(st.sampled_from([0, 0, 1, 2, 5])))]
@@ -366,7 +380,7 @@ def library(draw, lang=None, nfunc=(4, 10), for_fortran=True, with_class=None, r
     return lib
 
 
-SIMPLE_ROWS = ["N1", "B1", "S1in", "S3in", "N2out", "N2in"]
+SIMPLE_ROWS = ["N1", "B1", "S1in", "S3in", "N2out", "N2in", "E1"]
 
 # overload signatures: pairwise distinguishable by Fortran (type/kind/rank) and, in the LUA list,
 # by (count, Lua type)
@@ -392,18 +406,46 @@ def overload_group(draw, lang, fid, name, sigs, for_fortran=True):
     """tutorial.rst 'Overloaded Functions' / 'Function suffix'."""
     n = draw(st.integers(2, 3))
     chosen = draw(st.lists(st.sampled_from(sigs), min_size=n, max_size=n, unique_by=lambda x: tuple(x)))
-    explicit = draw(st.booleans())
+    explicit = draw(st.sampled_from(["none", "all", "mixed"]))
     funcs = []
     # a Fortran generic interface holds either functions or subroutines: one result style per set
     # (result types may differ between the members: 'int f(int)' next to 'double f(double, double)')
     has_ret = draw(st.booleans())
+    # tutorial.rst UseDefaultOverload: one member of the set may itself have trailing default arguments;
+    # its required part (string, string / bool, bool for Lua) is unlike every other signature, so every arity stays unambiguous
+    idef = draw(st.integers(0, n - 1)) if draw(st.integers(0, 2)) == 0 else -1
+    pos = 0
     for i, sig in enumerate(chosen):
         rT = draw(st.sampled_from(["int", "double", "long", "int", "float"])) if has_ret else None
         ret = dict(row="N", T=rT, ctype=rT, attrs="") if has_ret else None
+        # automatic suffixes are the position in the (expanded) set also when other members carry explicit ones
+        expl = explicit == "all" or (explicit == "mixed" and draw(st.booleans()))
+        if i == idef:
+            # (Lua: a string next to a bool in the same position is the recorded string-selects-bool finding)
+            # (so the Lua set uses three numbers, distinguishable from (bool, int, int) by the first Lua type)
+            req = ["int", "int", "int"] if sigs is OVL_SIGS_LUA else ["string", "string"]
+            params = [_sig_param(j, t) for j, t in enumerate(req)]
+            nd = draw(st.integers(1, 2))
+            for j in range(nd):
+                T, text, val = draw(st.sampled_from([("int", "3", 3), ("double", "1.5", 1.5), ("int", "0", 0), ("long", "7", 7)]))
+                p = P("d%d" % j, "N1", T, "%s d%d" % (T, j))
+                p["default"] = text
+                p["default_value"] = val
+                params.append(p)
+            f = dict(name=name, fid=fid + i, cls=None, kind="func", params=params, ret=(dict(ret) if ret else None), const=False,
+                     suffix=None, calls=[], overload_index=i, noverload=n, ndefault=nd, ovl_pos_base=pos)
+            for nargs in range(len(req), len(params) + 1):
+                c = draw(call_vector(f, for_fortran))
+                c["nargs"] = nargs
+                f["calls"].append(c)
+            pos += nd + 1
+            funcs.append(f)
+            continue
         f = dict(name=name, fid=fid + i, cls=None, kind="func", params=[_sig_param(j, t) for j, t in enumerate(sig)],
                  ret=(dict(ret) if ret else None), const=False,
-                 suffix=("_v%d" % i) if explicit else None, calls=[], overload_index=i, noverload=n)
+                 suffix=("_v%d" % i) if expl else None, calls=[], overload_index=i, noverload=n, ovl_pos_base=pos)
         f["calls"] = [draw(call_vector(f, for_fortran)) for _ in range(2)]
+        pos += 1
         funcs.append(f)
     return funcs
 
@@ -438,8 +480,8 @@ def pointer_func(draw, lang, fid, name, for_fortran=True):
 @st.composite
 def default_func(draw, lang, fid, name, for_fortran=True):
     """tutorial.rst 'Optional arguments': trailing default values."""
-    # 1-3 leading required arguments, 1-3 trailing defaults (up to six parameters)
-    lead = draw(st.lists(st.sampled_from(["double", "int", "long", "bool", "double"]), min_size=1, max_size=3))
+    # 0-3 leading required arguments, 1-3 trailing defaults (tutorial.rst UseDefaultArguments: all defaulted)
+    lead = draw(st.lists(st.sampled_from(["double", "int", "long", "bool", "double"]), min_size=0, max_size=3))
     params = []
     for j, T in enumerate(lead):
         params.append(P("a%d" % j, "N1" if T != "bool" else "B1", T, "%s a%d" % (T, j)))
@@ -532,6 +574,13 @@ def decl_text(f):
     return s
 
 
+def lib_uses_enum(lib):
+    fs = list(lib["funcs"])
+    for c in lib.get("classes", []):
+        fs += c["methods"] + c["statics"] + c["ctors"]
+    return any(p.get("enum") for f in fs for p in f["params"]) or any((f.get("ret") or {}).get("enum") for f in fs)
+
+
 def to_yaml(lib, options=None):
     import yaml
     decls = []
@@ -541,6 +590,8 @@ def to_yaml(lib, options=None):
         if f.get("suffix"):
             d["format"] = {"function_suffix": f["suffix"]}
         return d
+    if lib_uses_enum(lib):
+        decls.append({"decl": ENUM_DECL})
     for f in lib["funcs"]:
         decls.append(fdecl(f))
     for c in lib.get("classes", []):
@@ -948,7 +999,10 @@ def body_lines(f, this=False):
     r = f["ret"]
     if r:
         vals = [c["outputs"]["rv"] for c in f["calls"]]
-        if r["row"] in ("N", "B", "C"):
+        if r.get("enum"):
+            body.append("    { static const int vf_tab[] = {%s}; return (%s) vf_tab[vf_call %% %d]; }"
+                        % (", ".join("%d" % v for v in vals), ENUM_NAME, ncall))
+        elif r["row"] in ("N", "B", "C"):
             body.append("    { static const %s vf_tab[] = {%s}; return vf_tab[vf_call %% %d]; }"
                         % (r["T"], ", ".join(c_lit(r["T"], v) for v in vals), ncall))
         elif r["row"] == "P":
@@ -1012,6 +1066,8 @@ extern "C" void vf_live_report(void) { printf("LIVE %d\\n", vf_live_count); fflu
 """)
     else:
         impl.append('void vf_live_report(void) { printf("LIVE 0\\n"); fflush(stdout); }')
+    if cxx and lib_uses_enum(lib):
+        hdr.append(ENUM_DECL + ";")
     for c in lib.get("classes", []):
         nm = c["name"]
         hdr.append("class %s {\npublic:" % nm)
